@@ -109,6 +109,15 @@ def run(ctx):
     text = G.aligned_text(rng, 1150000, 'marker-start', gaps=True)
     el = eligible(text.split('\n'))
     large.append((text, el, [rng.choice(BLANKS[:5]) for _ in el], False))
+    # one value with thousands of markers, all blanked (and the same with a further field after it)
+    for n in (600, 1500, 5000):
+        body = []
+        for i in range(n):
+            body += [' line %d' % i, ' .']
+        for tail in ([' end'], [' end', 'Comment: after', ' .', ' more']):
+            text = '\n'.join(['Format: x', 'License: L'] + body + tail) + '\n'
+            el = eligible(text.split('\n'))
+            large.append((text, el, [rng.choice(BLANKS[:5]) for _ in el], False))
     fails = ctx.prop('prop:blanked-markers', cases, p_blank)
     fails += ctx.prop('prop:blanked-markers:large', large, p_blank)
     ctx.stream('prop:blanked-markers')['eligible_markers_histogram'] = markers
